@@ -18,6 +18,54 @@ def norm(s):
     return re.sub(r"\s+", " ", s or "").strip()
 
 
+_LOCALS = {}
+
+
+def _locals_of(func):
+    """Names bound inside the function (any scope below it) that are not its
+    parameters: what a behaviour-preserving rename may change."""
+    import ast
+    node = getattr(func, "node", None)
+    if node is None or not hasattr(func, "all_param_names"):
+        return frozenset()
+    k = id(node)
+    if k not in _LOCALS:
+        names = set()
+        for n in ast.walk(node):
+            if isinstance(n, ast.Name) and isinstance(n.ctx, (ast.Store, ast.Del)):
+                names.add(n.id)
+            elif isinstance(n, ast.ExceptHandler) and n.name:
+                names.add(n.name)
+            elif isinstance(n, ast.arg) and n is not None:
+                pass
+        outer = func
+        params = set()
+        while outer is not None:
+            params |= set(outer.all_param_names())
+            outer = getattr(outer, "outer", None)
+        _LOCALS[k] = frozenset(names - params)
+    return _LOCALS[k]
+
+
+def alpha(func, ctext):
+    """Construct text with the function's local variable names replaced by
+    $1, $2, ... in order of first appearance: keys of findings do not depend
+    on what a local is called."""
+    loc = _locals_of(func)
+    if not loc or not ctext:
+        return ctext
+    order = {}
+
+    def sub(m):
+        w = m.group(0)
+        if w not in loc:
+            return w
+        if w not in order:
+            order[w] = "$%d" % (len(order) + 1)
+        return order[w]
+    return re.sub(r"(?<![\w.'\"])[A-Za-z_]\w*", sub, ctext)
+
+
 class Finding:
     def __init__(self, prop, rule, func, construct_, why, file="", line=0,
                  detail=None):
@@ -29,6 +77,7 @@ class Finding:
         self.file = file
         self.line = line
         self.detail = detail or {}
+        self.pos = None
 
     def key(self):
         return (self.prop, self.rule, self.func, self.construct)
@@ -123,23 +172,55 @@ class Ctx:
         self.obligations.append({
             "rule": rule, "function": getattr(func, "key", str(func)),
             "file": file, "line": line,
+            "_pos": (line, getattr(node, "col_offset", 0)) if text_ is None else None,
             "construct": norm(text_ if text_ is not None else
-                              (construct(node) if node is not None else "")),
+                              (alpha(func, construct(node)) if node is not None else "")),
             "status": "discharged", "by": idiom})
 
     def bad(self, rule, func, node, why, text_=None, detail=None):
         """Record a violated obligation (a finding)."""
         file, line = self.where(func, node)
         ctext = text_ if text_ is not None else (
-            construct(node) if node is not None else "")
+            alpha(func, construct(node)) if node is not None else "")
         fkey = getattr(func, "key", str(func))
         f = Finding(self.prop, rule, fkey, ctext, why, file, line, detail)
-        if any(x.key() == f.key() for x in self.findings):
+        f.pos = (line, getattr(node, "col_offset", 0)) if text_ is None else None
+        if any(x.key() == f.key() and x.pos == f.pos for x in self.findings):
             return
         self.findings.append(f)
         self.obligations.append({
             "rule": rule, "function": fkey, "file": file, "line": line,
+            "_pos": f.pos, "_finding": f,
             "construct": f.construct, "status": "violated", "why": why})
+
+    def number_constructs(self):
+        """Several constructs of one function can have the same alpha-
+        normalised text (the a- and b-side of a merge loop).  Within (rule,
+        function, text) they are told apart by their source order: the
+        second one examined by the rule is `<text> #2`, and so on."""
+        groups = {}
+        for o in self.obligations:
+            if o.get("_pos") is not None:
+                groups.setdefault((o["rule"], o["function"], o["construct"]),
+                                  set()).add(o["_pos"])
+        for o in self.obligations:
+            pos = o.pop("_pos", None)
+            f = o.pop("_finding", None)
+            if pos is None:
+                continue
+            order = sorted(groups[(o["rule"], o["function"], o["construct"])])
+            k = order.index(pos) + 1
+            if k > 1:
+                o["construct"] = "%s #%d" % (o["construct"], k)
+                if f is not None:
+                    f.construct = o["construct"]
+        # identical findings (same construct reported twice) collapse
+        seen, out = set(), []
+        for f in self.findings:
+            if f.key() not in seen:
+                seen.add(f.key())
+                out.append(f)
+        self.findings = out
 
     def info(self, msg):
         self.infos.append(msg)
@@ -185,8 +266,9 @@ def finish(ctx, explanation, rule_text, emit=print):
              % (ctx.prop, e["rule"], e["function"], e["construct"]))
     for f in violations:
         path = os.path.join(REPLAY_DIR, "%s-%s.json" % (ctx.prop, f.digest()))
-        with open(path, "w") as fh:
-            json.dump(f.as_dict(), fh, indent=1, sort_keys=True)
+        if os.environ.get("VERIF_NO_EVIDENCE") != "1":
+            with open(path, "w") as fh:
+                json.dump(f.as_dict(), fh, indent=1, sort_keys=True)
         emit("%s:%d: %s: %s: `%s`: %s" % (f.file, f.line, f.rule, f.func,
                                            f.construct, f.why))
         emit("VIOLATION property=%s replay=%s" % (ctx.prop, path))
@@ -237,9 +319,10 @@ def finish(ctx, explanation, rule_text, emit=print):
         "wall_s": round(time.time() - ctx.t0, 3),
         "violations": len(violations),
     }
-    os.makedirs(EVID_DIR, exist_ok=True)
-    with open(os.path.join(EVID_DIR, "%s.json" % ctx.prop), "w") as fh:
-        json.dump(ev, fh, indent=1, sort_keys=True, default=str)
+    if os.environ.get("VERIF_NO_EVIDENCE") != "1":
+        os.makedirs(EVID_DIR, exist_ok=True)
+        with open(os.path.join(EVID_DIR, "%s.json" % ctx.prop), "w") as fh:
+            json.dump(ev, fh, indent=1, sort_keys=True, default=str)
     emit("%s %s: %d obligations, %d discharged, %d known finding(s), "
          "%d violation(s), %.2fs"
          % (ctx.prop, ctx.tier, obligations, discharged, len(knowns),
